@@ -87,10 +87,26 @@ let op_name (msg : byte list) (p : int) : string =
   let ti = match read_name msg Inline c with Ok (t, _) -> "ok:" ^ hex t | r -> pres r (fun _ -> "") in
   Printf.sprintf "RH=%s RI=%s SK=%s LB=%s TH=%s TI=%s" rh ri sk lb th ti
 
+(* spec side of the names stream: the code-blind RFC expansion (Spec/WireName.v) *)
+let spec_name_line (msg : byte list) (p : int) : string =
+  match spec_name msg (n_of_int p) with
+  | SReject w -> Printf.sprintf "reject %d" (ni w)
+  | SAccept (ls, r) ->
+    let bs = List.map snd ls in
+    let valid = List.for_all label_ok bs in
+    Printf.sprintf "accept %d %d %d %s [%s]" (ni r) (if valid then 1 else 0) (ni (wire_len bs))
+      (hex (join_labels bs))
+      (String.concat "" (List.map (fun (p, b) -> string_of_int (ni p) ^ ":" ^ hex b ^ ",") ls))
+
 let dispatch (op : string) (a : string array) : string =
   match op with
   | "name" -> op_name (unhex a.(0)) (int_of_string a.(1))
   | _ -> "BADOP(" ^ op ^ ")"
+
+let spec (op : string) (a : string array) : string option =
+  match op with
+  | "name" -> Some (spec_name_line (unhex a.(0)) (int_of_string a.(1)))
+  | _ -> None
 
 let () =
   try
@@ -100,7 +116,9 @@ let () =
         match String.split_on_char ' ' line with
         | id :: op :: rest ->
           let out = (try dispatch op (Array.of_list rest) with Abnormal s -> s) in
-          print_string ("R " ^ id ^ " " ^ out ^ "\n")
+          print_string ("R " ^ id ^ " " ^ out ^ "\n");
+          (match spec op (Array.of_list rest) with
+           | Some sp -> print_string ("S " ^ id ^ " " ^ sp ^ "\n") | None -> ())
         | _ -> ()
       end
     done
